@@ -213,15 +213,19 @@ def build_plan(lib, r, thorough):
                  "kw": {p["name"]: enc(vals[p["name"]]) for p in cf["params"]} if kwmode else {}},
                 {"expect": "new", "f": ci, "args": vals, "obj": obj})
             for mi, mf in meths:
-                vals = {p["name"]: r.choice(libs.battery(p["T"])) for p in mf["params"]}
+                mins = [p for p in mf["params"] if p["kind"] in ir.IN_KINDS and p["kind"] != "implied"]
+                vals = {p["name"]: r.choice(libs.battery(p["T"])) for p in mins}
                 kind = "static" if mf.get("static") else "method"
-                add({"kind": kind, "cls": c, "name": mf["name"], "obj": obj, "pos": [enc(vals[p["name"]]) for p in mf["params"]], "kw": {}},
-                    {"expect": "ok", "f": mi, "T": None, "args": vals, "obj": obj, "arity": len(mf["params"])})
+                kwm = bool(mins) and (oi + mi) % 3 == 0
+                add({"kind": kind, "cls": c, "name": mf["name"], "obj": obj, "pos": [] if kwm else [enc(vals[p["name"]]) for p in mins],
+                     "kw": {p["name"]: enc(vals[p["name"]]) for p in mins} if kwm else {}},
+                    {"expect": "ok", "f": mi, "T": None, "args": vals, "obj": obj, "arity": len(mins)})
         if ctors and meths:
             mi, mf = meths[0]
-            vals = {p["name"]: libs.base_value(p, r) for p in mf["params"]}
-            add({"kind": "method", "cls": c, "name": mf["name"], "obj": "o0", "pos": [enc(vals[p["name"]]) for p in mf["params"]], "kw": {}},
-                {"expect": "ok", "f": mi, "T": None, "args": vals, "obj": "o0", "arity": len(mf["params"])})
+            mins = [p for p in mf["params"] if p["kind"] in ir.IN_KINDS and p["kind"] != "implied"]
+            vals = {p["name"]: libs.base_value(p, r) for p in mins}
+            add({"kind": "method", "cls": c, "name": mf["name"], "obj": "o0", "pos": [enc(vals[p["name"]]) for p in mins], "kw": {}},
+                {"expect": "ok", "f": mi, "T": None, "args": vals, "obj": "o0", "arity": len(mins)})
         for oi in range(len(ctors) * 2):
             add({"kind": "del", "obj": "o%d" % oi}, {"expect": "del", "obj": "o%d" % oi})
     return ops, meta
